@@ -8,6 +8,11 @@ import Driver.Util
   a2f <in> <out> <s> <b> <mn|_> <mx|_> <n2z> <vals>   array_to_file with free stored (s, b)
         -> `ok [raw,...]` | `ERR:<kind>`
   var <cls> <in> <out> <vals>                     writer decisions only -> `ok <s=1?> <b=0?> <sign s>` | `ERR:<kind>`
+  tfm <cls> <in> <hd> <sl> <it> <args> <vals>    img.to_file_map(dtype=arg) history on one image (Analyze family):
+                                                  hd = header dtype f11|f24|f53|<omin>:<omax> ; sl, it = preset header
+                                                  slope / inter (`_` = NaN) ; args = `;`-list of `_` | dtype
+        -> `<result of the LAST save> H <dtype> <slope> <inter>` (header afterwards) | `unmodelled`
+  tfmd ...                                        same, decision-level result (as `var`)
   fr <in> <vals>                                  finite_range -> `<mn> <mx> <has_nan>` | `none <has_nan>`
   shr <p> <out>                                   shared_range -> `<mn> <mx>`
   fe <p> <v>                                      floor_exact / ceil_exact -> `<floor> <ceil>`
@@ -58,6 +63,19 @@ def parseCls? (s : String) : Option Cls :=
 def showRat (r : Rat) : String :=
   if r.den = 1 then toString r.num else toString r.num ++ "/" ++ toString r.den
 
+def parseDT? (s : String) : Option DT :=
+  if s = "f11" then some (.flt 11)
+  else if s = "f24" then some (.flt 24)
+  else if s = "f53" then some (.flt 53)
+  else (parseOut? s).map DT.int
+
+def parseArg? (s : String) : Option (Option DT) :=
+  if s = "_" then some none else (parseDT? s).map some
+
+def showDT : DT → String
+  | .flt p => "f" ++ toString p
+  | .int o => toString o.omin ++ ":" ++ toString o.omax
+
 def showErr : Err → String
   | .writer => "ERR:WriterError"
   | .headerData => "ERR:HeaderDataError"
@@ -82,6 +100,24 @@ def handle : List String → String
                               (if 0 < s then "+" else "-")
           | .error e => showErr e
       | _, _, _, _ => "bad-op"
+  | [op, cls, i, hd, sl, it, args, vals] =>
+      if op ≠ "tfm" ∧ op ≠ "tfmd" then "bad-op" else
+      match parseCls? cls, parseIn? i, parseDT? hd, parseOptRat? sl, parseOptRat? it,
+            (args.splitOn ";").mapM parseArg?, parseVals? vals with
+      | some c, some i, some hd, some sl, some it, some args, some vs =>
+          if c == .mgh || args.isEmpty then "bad-op" else
+          let (rs, h) := saveSeq c id 24 i vs ⟨hd, sl, it⟩ args
+          let showOpt (x : Option Rat) : String := match x with | none => "_" | some r => showRat r
+          let tail := " H " ++ showDT h.dtype ++ " " ++ showOpt h.slope ++ " " ++ showOpt h.inter
+          match rs.getLast? with
+          | none => "bad-op"
+          | some none => "unmodelled"
+          | some (some (.error e)) => showErr e ++ tail
+          | some (some (.ok (s, b, raw))) =>
+              if op = "tfm" then "ok " ++ showRat s ++ " " ++ showRat b ++ " " ++ showList raw ++ tail
+              else "ok " ++ (if s = 1 then "1" else "0") ++ " " ++ (if b = 0 then "1" else "0") ++ " " ++
+                   (if 0 < s then "+" else "-") ++ tail
+      | _, _, _, _, _, _, _ => "bad-op"
   | ["a2f", i, o, s, b, mn, mx, n2z, vals] =>
       match parseIn? i, parseOut? o, parseRat? s, parseRat? b, parseOptRat? mn, parseOptRat? mx,
             (if n2z = "1" then some true else if n2z = "0" then some false else none), parseVals? vals with
